@@ -127,7 +127,10 @@ Definition vowned (v : vec) : list (nat * mgr) :=
 
 Definition vwf (v : vec) : Prop := vsize v <= vcap v /\ (vcap v = 0 <-> vdata v = None).
 
-Ltac spw := unfold vwf; sp.
+Definition vpost (v : vec) (h : heap) (h1 : heap) (v1 : vec) (ok : bool) (F : list (nat * mgr)) : Prop :=
+  linv (vowned v1 ++ F) h1 /\ vwf v1 /\ vm v1 = vm v /\ (ok = false -> v1 = v /\ live h1 = live h).
+
+Ltac spw := unfold vpost, vwf; sp.
 
 Lemma vwf_empty : forall m, vwf (vempty m).
 Proof. intro m; split; cbn; [lia | tauto]. Qed.
@@ -144,6 +147,12 @@ Proof.
   - apply Nat.eqb_neq in E. destruct (alloc m tag n h) as [h2 [id|]] eqn:A; inversion H; subst.
     + spw; cbn; try lia; try discriminate. eapply linv_alloc; eauto.
     + split; auto. eapply linv_throw; eauto.
+Qed.
+
+Lemma vec_new_none : forall tag m n h h1, vec_new tag m n h = (h1, None) -> live h1 = live h.
+Proof.
+  intros tag m n h h1 N. unfold vec_new in N. destruct (n =? 0); [discriminate|].
+  destruct (alloc m tag n h) as [h3 [id|]] eqn:A; inversion N; subst. apply alloc_none in A. tauto.
 Qed.
 
 Lemma vec_dtor_spec : forall v h F, vwf v -> linv (vowned v ++ F) h -> linv F (vec_dtor v h).
@@ -173,11 +182,9 @@ Proof.
     cbn in H. inversion H; subst; clear H. cbn. split.
     + apply vec_dtor_spec; auto. eapply linv_perm; [|exact It].
       rewrite !app_assoc. apply Permutation_app_tail. apply Permutation_app_comm.
-    + destruct Wt as [_ Wt]. spw; cbn; try lia; try tauto. apply Wt. apply Wt.
+    + destruct Wt as [_ Wt]. spw; cbn; try lia; try tauto; try apply Wt.
   - inversion H; subst; clear H. pose proof (vec_new_spec _ _ _ _ _ _ _ I N) as [It _]. split; auto. split; auto.
-    unfold vec_new in N. destruct (Nat.max (vsize v) nc =? 0); [discriminate|].
-    destruct (alloc (vm v) tag (Nat.max (vsize v) nc) h) as [h3 [id|]] eqn:A; inversion N; subst.
-    apply alloc_none in A. tauto.
+    eapply vec_new_none; eauto.
 Qed.
 
 Lemma grow_gt : forall n, 0 < n -> n + 1 <= vec_grow_size n.
@@ -186,16 +193,12 @@ Proof.
   apply Nat.div_le_lower_bound; lia.
 Qed.
 
-Definition vpost (v : vec) (h : heap) (h1 : heap) (v1 : vec) (ok : bool) (F : list (nat * mgr)) : Prop :=
-  linv (vowned v1 ++ F) h1 /\ vwf v1 /\ vm v1 = vm v /\ (ok = false -> v1 = v /\ live h1 = live h).
-
 Lemma vec_push_spec : forall tag v h h1 v1 ok F, vwf v -> linv (vowned v ++ F) h ->
   vec_push tag v h = (h1, v1, ok) -> vpost v h h1 v1 ok F /\ (ok = true -> vsize v1 = S (vsize v)).
 Proof.
   intros tag v h h1 v1 ok F W I H. unfold vec_push in H. pose proof W as [W1 W2].
   destruct (vsize v <? vcap v) eqn:E1.
-  - apply Nat.ltb_lt in E1. inversion H; subst. spw; cbn; auto; try lia; try tauto; try discriminate.
-    apply W2. apply W2.
+  - apply Nat.ltb_lt in E1. inversion H; subst. spw; cbn; auto; try lia; try tauto; try discriminate; try apply W2.
   - apply Nat.ltb_ge in E1. destruct (vsize v =? 0) eqn:E2.
     + apply Nat.eqb_eq in E2. assert (C : vcap v = 0) by lia. apply W2 in C.
       unfold vowned in I. rewrite C in I.
@@ -247,15 +250,11 @@ Proof.
   - apply Nat.ltb_lt in E.
     destruct (vec_new tag (vm v) (vsize v + n) h) as [h2 [t|]] eqn:N.
     + pose proof (vec_new_spec _ _ _ _ _ _ _ I N) as [Wt [Mt [St [Ct It]]]].
-      cbn in H. inversion H; subst; clear H. spw; cbn; auto; try lia; try discriminate.
-      * apply vec_dtor_spec; auto. eapply linv_perm; [|exact It].
-        rewrite !app_assoc. apply Permutation_app_tail. apply Permutation_app_comm.
-      * apply Wt. * apply Wt.
+      cbn in H. inversion H; subst; clear H. spw; cbn; auto; try lia; try discriminate; try apply Wt.
+      apply vec_dtor_spec; auto. eapply linv_perm; [|exact It].
+      rewrite !app_assoc. apply Permutation_app_tail. apply Permutation_app_comm.
     + inversion H; subst; clear H. pose proof (vec_new_spec _ _ _ _ _ _ _ I N) as [It _].
-      spw; auto; try tauto.
-      unfold vec_new in N. destruct (vsize v1 + n =? 0); [discriminate|].
-      destruct (alloc (vm v1) tag (vsize v1 + n) h) as [h3 [id|]] eqn:A; inversion N; subst.
-      apply alloc_none in A. tauto.
+      spw; auto; try tauto. intros _; split; auto. eapply vec_new_none; eauto.
   - apply Nat.ltb_ge in E. inversion H; subst. spw; cbn; auto; try tauto; try lia; try discriminate.
 Qed.
 
@@ -280,15 +279,11 @@ Proof.
   - apply Nat.ltb_lt in E.
     destruct (vec_new tag (vm v) (Nat.max (vsize rhs) 0) h) as [h2 [t|]] eqn:N.
     + pose proof (vec_new_spec _ _ _ _ _ _ _ I N) as [Wt [Mt [St [Ct It]]]].
-      cbn in H. inversion H; subst; clear H. spw; cbn; auto; try lia; try discriminate.
-      * apply vec_dtor_spec; auto. eapply linv_perm; [|exact It].
-        rewrite !app_assoc. apply Permutation_app_tail. apply Permutation_app_comm.
-      * apply Wt. * apply Wt.
+      cbn in H. inversion H; subst; clear H. spw; cbn; auto; try lia; try discriminate; try apply Wt.
+      apply vec_dtor_spec; auto. eapply linv_perm; [|exact It].
+      rewrite !app_assoc. apply Permutation_app_tail. apply Permutation_app_comm.
     + inversion H; subst; clear H. pose proof (vec_new_spec _ _ _ _ _ _ _ I N) as [It _].
-      spw; auto; try tauto.
-      unfold vec_new in N. destruct (Nat.max (vsize rhs) 0 =? 0); [discriminate|].
-      destruct (alloc (vm v1) tag (Nat.max (vsize rhs) 0) h) as [h3 [id|]] eqn:A; inversion N; subst.
-      apply alloc_none in A. tauto.
+      spw; auto; try tauto. intros _; split; auto. eapply vec_new_none; eauto.
   - apply Nat.ltb_ge in E. inversion H; subst. spw; cbn; auto; try tauto; try lia; try discriminate.
 Qed.
 
@@ -306,8 +301,9 @@ Qed.
 Lemma vinv_upd : forall i w h v1, vwf v1 -> vwf (sel (negb i) w) ->
   linv (vowned v1 ++ vowned (sel (negb i) w)) h -> vinv (upd i w v1) h.
 Proof.
-  intros i [a b] h v1 W1 W2 I. destruct i; cbn in *; spw; auto; try apply W1; try apply W2.
-  eapply linv_perm; [apply Permutation_app_comm | exact I].
+  intros i [a b] h v1 W1 W2 I. unfold vinv. destruct i; cbn in *.
+  - split; [exact W2 | split; [exact W1 | eapply linv_perm; [apply Permutation_app_comm | exact I]]].
+  - split; [exact W1 | split; [exact W2 | exact I]].
 Qed.
 
 Lemma vpost_lift : forall i w h h1 v1 ok, vinv w h ->
@@ -351,8 +347,8 @@ Proof.
     destruct (vinv_sel i w h V) as [Wi Ii]. eapply vec_assign_spec in E; eauto.
     eapply vpost_lift; eauto.
   - cbn in H. inversion H; subst. split; [|discriminate].
-    destruct w as [a b]. destruct V as [Wa [Wb I]]. cbn in *. spw; try apply Wa; try apply Wb.
-    eapply linv_perm; [apply Permutation_app_comm | exact I].
+    destruct w as [a b]. destruct V as [Wa [Wb I]]. cbn in *.
+    split; [exact Wb | split; [exact Wa | eapply linv_perm; [apply Permutation_app_comm | exact I]]].
 Qed.
 
 Lemma vrun_inv : forall ops w h w1 h1, vinv w h -> run _ _ vstep ops w h = (w1, h1) -> vinv w1 h1.
@@ -365,7 +361,7 @@ Qed.
 
 Lemma vinv0 : forall f, vinv vworld0 (heap0 f).
 Proof.
-  intro f. spw; cbn; try lia; try tauto; try constructor. intros p [].
+  intro f. unfold vinv, linv, heap_ok, vwf. cbn. repeat split; try lia; try tauto; try constructor.
 Qed.
 
 Lemma vdestroy_spec : forall w h, vinv w h -> live (vdestroy w h) = [] /\ bad (vdestroy w h) = false.
@@ -383,7 +379,6 @@ Proof. intros ops f w h H. apply vdestroy_spec. eapply vrun_inv; [apply vinv0 | 
 Lemma vdtor_no_alloc : forall v h, next (vec_dtor v h) = next h /\ fuse (vec_dtor v h) = fuse h.
 Proof.
   intros v h. unfold vec_dtor. destruct (vcap v =? 0); auto. destruct (vdata v); auto.
-  destruct vec_dtor_deallocates; auto.
 Qed.
 
 Lemma vdestroy_no_alloc : forall w h, next (vdestroy w h) = next h /\ fuse (vdestroy w h) = fuse h.
